@@ -171,6 +171,19 @@ def run_e1(
                         replay={"engine": "E1", "module_src": o.module_src, "args_py": repr(t.cex), "obligation": o.name},
                     )
                 )
+    # obligations that ended without a verdict (time limit: e.g. code that loops for ever on some inputs) and carry concrete probe
+    # inputs: the probes are run on plain CPython under a time limit; a probe on which the harness fails or does not return is a
+    # replayed violation - an undecided obligation never turns into a pass, but it should not hide a hang either
+    pending = [(o, a) for o in obligations if o.kind == "core" and o.status not in ("confirmed", "refuted") for a in (o.meta.get("probes") or [])]
+    probes_run = 0
+    if pending:
+        with ThreadPoolExecutor(max_workers=8) as ex:
+            for (o, a), (bad, detail) in zip(pending, ex.map(lambda oa: replay_e1(oa[0].module_src, oa[1], timeout=40.0), pending)):
+                probes_run += 1
+                if bad and "replay runner crashed" not in detail:
+                    out.violations.append(
+                        Violation(signature=signature(o, a, detail), what=f"{o.name}: args={a!r}: {detail} (concrete probe on plain CPython; the symbolic run of this obligation ended without a verdict)",
+                                  replay={"engine": "E1", "module_src": o.module_src, "args_py": repr(a), "obligation": o.name}))
     core = [o for o in obligations if o.kind == "core"]
     samples = []
     for o in (core[:2] + [x for x in obligations if x.kind == "hunt"][:1] + summ.refuted[:2]):
@@ -197,6 +210,7 @@ def run_e1(
         "vacuity_twins": len(twins),
         "vacuity_twins_refuted": twins_ok,
         "model_fidelity_runs": fidelity,
+        "concrete_probes_on_undecided": probes_run,
         "paths_explored": summ.paths,
         "solver_cpu_s": round(summ.solver_s, 1),
         "evaluations": summ.paths,
